@@ -1069,17 +1069,46 @@ func CliTargetCases(c *Ctx, fam *report.Family, bin string) {
 			return plan{args: []string{"-p", pw[0], "-t", pw[1]}, want: filepath.Join(d, pw[1])}
 		})
 	}
-	// a file that already sits at the resolved target (a previous, larger build) is replaced: afterwards the target
-	// holds exactly the package a build into a fresh directory produces (mtime fixed, so builds are reproducible)
+	CliExistingTargetCases(c, fam, bin, "C15", root)
+	// no packager and nothing to infer it from
+	expect("no-packager", v, "", func(d string) plan { return plan{args: nil} })
+	expect("no-packager", v, "", func(d string) plan { return plan{args: []string{"-t", ""}} })
+	expect("no-packager", v, "", func(d string) plan {
+		_ = os.Mkdir(filepath.Join(d, "outdir"), 0o755)
+		return plan{args: []string{"-t", "outdir"}, extra: []string{"outdir/"}}
+	})
+	expect("no-packager", v, "", func(d string) plan {
+		_ = os.Mkdir(filepath.Join(d, "outdir.deb"), 0o755)
+		return plan{args: []string{"-t", "outdir.deb"}, extra: []string{"outdir.deb/"}}
+	})
+	expect("no-packager", v, "", func(d string) plan { return plan{args: []string{"-t", "noextension"}} })
+}
+
+// CliExistingTargetCases: a file that already sits at the resolved target (a previous, larger build) is replaced:
+// afterwards the target holds exactly the package a build into a fresh directory produces (mtime fixed, so builds
+// are reproducible) – in particular a well-formed package with nothing after it.
+func CliExistingTargetCases(c *Ctx, fam *report.Family, bin, prop, root string) {
+	tool := filepath.Join(root, "tool-existing.sh")
+	if err := os.WriteFile(tool, []byte("#!/bin/sh\necho tool\n"), 0o755); err != nil {
+		c.Rep.Note("cli-existing-target: %v", err)
+		return
+	}
+	n := 0
 	for _, f := range Formats {
-		conv := conventional(f, v)
+		info := &nfpm.Info{Name: "verifpkg", Arch: "amd64", Platform: "linux", Version: "1.2.3", Maintainer: "Verif <verif@example.com>", Description: "verification package"}
+		p, err := nfpm.Get(f)
+		if err != nil {
+			continue
+		}
+		conv := p.ConventionalFileName(nfpm.WithDefaults(info))
 		for _, how := range []string{"file-target", "conventional-name-in-directory"} {
-			y := cliYAML(v.version, v.release, "linux", []cliEntry{{tool, "/usr/bin/tool", ""}}, nil, "mtime: 2023-11-14T22:13:20Z\n")
+			y := cliYAML("1.2.3", "", "linux", []cliEntry{{tool, "/usr/bin/tool", ""}}, nil, "mtime: 2023-11-14T22:13:20Z\n")
 			dirs := [2]string{}
 			for k := range dirs {
-				dirs[k], _ = fresh(v)
+				n++
+				dirs[k] = filepath.Join(root, fmt.Sprintf("existing-%03d", n))
+				_ = os.MkdirAll(filepath.Join(dirs[k], "out"), 0o755)
 				_ = os.WriteFile(filepath.Join(dirs[k], "nfpm.yaml"), []byte(y), 0o644)
-				_ = os.Mkdir(filepath.Join(dirs[k], "out"), 0o755)
 			}
 			rel := filepath.Join("out", "pkg"+cliExt[f])
 			args := []string{"-p", f, "-t", rel}
@@ -1096,30 +1125,20 @@ func CliTargetCases(c *Ctx, fam *report.Family, bin string) {
 			fam.Count(cs)
 			in := map[string]any{"case": cs, "packager": f, "how": how, "config": y, "args": append([]string{"package"}, args...), "stale_bytes": len(stale)}
 			if code0 != 0 || code1 != 0 {
-				find(cs, fmt.Sprintf("%s: `nfpm package %s` exits %d onto an existing file and %d into a fresh directory: %q %q", f, strings.Join(args, " "), code0, code1, out0, out1), in)
+				c.Rep.Find(report.Finding{Property: prop, Family: fam.Name, Shape: "cli-target:" + cs,
+					What: fmt.Sprintf("%s: `nfpm package %s` exits %d onto an existing file and %d into a fresh directory: %q %q", f, strings.Join(args, " "), code0, code1, out0, out1), Input: in})
 				continue
 			}
 			over, _ := os.ReadFile(filepath.Join(dirs[0], rel))
 			freshB, _ := os.ReadFile(filepath.Join(dirs[1], rel))
 			if !bytes.Equal(over, freshB) {
 				in["size_over_existing"], in["size_fresh"] = len(over), len(freshB)
-				find(cs, fmt.Sprintf("%s: `nfpm package %s` onto an existing %d-byte file leaves %d bytes at the target; the same build into a fresh directory writes %d bytes (common prefix %d)",
-					f, strings.Join(args, " "), len(stale), len(over), len(freshB), commonPrefixLen(over, freshB)), in)
+				c.Rep.Find(report.Finding{Property: prop, Family: fam.Name, Shape: "cli-target:" + cs,
+					What: fmt.Sprintf("%s: `nfpm package %s` onto an existing %d-byte file leaves %d bytes at the target; the same build into a fresh directory writes the %d-byte package (common prefix %d): the target is the package followed by %d stale bytes",
+						f, strings.Join(args, " "), len(stale), len(over), len(freshB), commonPrefixLen(over, freshB), len(over)-commonPrefixLen(over, freshB)), Input: in})
 			}
 		}
 	}
-	// no packager and nothing to infer it from
-	expect("no-packager", v, "", func(d string) plan { return plan{args: nil} })
-	expect("no-packager", v, "", func(d string) plan { return plan{args: []string{"-t", ""}} })
-	expect("no-packager", v, "", func(d string) plan {
-		_ = os.Mkdir(filepath.Join(d, "outdir"), 0o755)
-		return plan{args: []string{"-t", "outdir"}, extra: []string{"outdir/"}}
-	})
-	expect("no-packager", v, "", func(d string) plan {
-		_ = os.Mkdir(filepath.Join(d, "outdir.deb"), 0o755)
-		return plan{args: []string{"-t", "outdir.deb"}, extra: []string{"outdir.deb/"}}
-	})
-	expect("no-packager", v, "", func(d string) plan { return plan{args: []string{"-t", "noextension"}} })
 }
 
 func runC06(c *Ctx) error {
